@@ -92,6 +92,11 @@ CHECKS = {
                      "translation with Y shifted by a symbolic s, and for Simple/Connected/Disjoint shapes built by constructor, reordered, or by operators: on every path cell "
                      "z3 decides bool-ness, symmetry, consistency with !=, and that the answer is True exactly where s = 0 (1e-5 band excluded).",
                 technique="symbolic execution of the real code (SYMX) + z3 per path cell"),
+    "C19": dict(level="model_checking", design="4/C19",
+                text="ConnectedShape([...]) / DisjointShape([...]) under SYMX for every ordering of valid member lists with one member translated symbolically inside its validity "
+                     "range: z3 decides per path cell (query point free) that the constructed object, the operator-built object and the Boolean combination of the member regions "
+                     "coincide, complement, == both ways, kinds, identical area/moments; DisjointShape([S]) unshared copy, empty lists Empty.",
+                technique="symbolic execution of the real code (SYMX) + z3 per path cell"),
 }
 NA = {}
 
